@@ -282,6 +282,53 @@ def validate_first_rule(prog, res):
     res.minimum('typed vector setters', n, 3)
 
 
+def longest_string_rule(prog, res, rule='validate-first'):
+    """the leading dimension stored for string values is the length of the longest *stored* string:
+    first_dim = max over data[i].size() in a normal-form loop over [0, data.size)"""
+    f = [x for x in prog.fns(PR + '::set') if len(x.params) == 2 and 'basic_string' in x.params[0]['type']]
+    if len(f) != 1:
+        raise AnalysisBroken('Parameter::set(vector<string>, dims) vanished')
+    f = f[0]
+    R = Renderer(f)
+    ins = [c for c in f.calls() if c['callee']['name'] == 'insert' and c['callee'].get('classq') == 'std::vector']
+    inst = 'Parameter::set(vector<string>): leading dimension = longest stored string'
+    if len(ins) != 1:
+        res.undecided(rule, inst, f.loc(), 'cannot find the insertion of the string length into the dimensions', function=f.sig, expr='longest')
+        return
+    v = R.render(ins[0]['args'][1])
+    m = re.match(r'^local:(\w+)$', v)
+    if not m:
+        res.undecided(rule, inst, f.loc(ins[0]['id']), 'inserted length is %s: computed by something the rule cannot read' % v, function=f.sig, expr='longest')
+        return
+    asg = [n for n in f.all_nodes({'BinaryOperator'}) if n['op'] == '=' and R.render(n['ch'][0]) == v]
+    from loops import loops_around
+    good = []
+    for a in asg:
+        rhs = R.render(a['ch'][1])
+        mm = re.match(r'^arg0\[(?:\(unsigned long\))?local:(\w+)\]\.size$', rhs)
+        la = loops_around(f, a['id'], R)
+        guard = None
+        for p in f.ancestors(a['id']):
+            if f.nodes[p]['k'] == 'IfStmt':
+                guard = R.render(f.nodes[p]['cond'])
+                break
+        if mm and la and la[0]['name'] == mm.group(1) and la[0]['bound'] == 'arg0.size' and guard in ('(%s > %s)' % (rhs, v), '(%s < %s)' % (v, rhs)):
+            good.append(a)
+    init0 = False
+    from paths import local_init
+    for n in f.all_nodes({'DeclStmt'}):
+        for d in n['decls']:
+            if 'local:' + d['name'] == v and 'init' in d and f.nodes[f.strip(d['init'], 'all')].get('cv') == '0':
+                init0 = True
+    if asg and len(good) == len(asg) and init0:
+        res.ok(rule, inst, f.loc(asg[0]['id']), 'running maximum of data[i].size() over all i', function=f.sig, expr='longest')
+    elif not asg:
+        res.undecided(rule, inst, f.loc(), 'the length is not computed by a running maximum in this function', function=f.sig, expr='longest')
+    else:
+        res.viol(rule, inst, f.loc(asg[0]['id']), 'the declared string width is not the maximum of the lengths of the strings that are stored (%s): a cell may be narrower than its text' %
+                 [R.render(a['ch'][1]) for a in asg], function=f.sig, expr='longest')
+
+
 def consistency_width_rule(prog, res):
     f = prog.fn(PR + '::isDimensionConsistent', nparams=2)
     R = Renderer(f)
@@ -349,6 +396,7 @@ def run(prog, tier):
     replace_search_rule(prog, res, pg, '_groups', r'^this\.group\(local:%s\)\._name$', 'arg0._name')
     edit_order_rule(prog, res)
     validate_first_rule(prog, res)
+    longest_string_rule(prog, res)
     consistency_width_rule(prog, res)
     lock_rule(prog, res)
     return res
